@@ -32,7 +32,8 @@ INSTANCES = {
          "thorough": [inst(Which='{"C06"}', SubmitSet="Sub_Acked", PidMax=2, MaxOps=3, MaxConns=3, AckHows='{"normal", "fail"}', CfgSet="Cfg_Policies"),
                       inst(Which='{"C06"}', SubmitSet="Sub_Acked", PidMax=2, MaxOps=3, AckHows=ADV)]},
  "C07": {"quick": [inst(Which='{"C07"}', CfgSet="Cfg_RejoinBig", ConnackSet="Ck_Handshake", EarlyConnack="TRUE", MaxConns=2, MaxOps=0, Others='{"Disconnect", "Reset"}', Horizon=2, Deadline=2),
-                   inst(Which='{"C07"}', CfgSet="Cfg_Rejoin", ConnackSet="Ck_Handshake", EarlyConnack="FALSE", MaxConns=3, MaxOps=0, Others='{}', Caps="{3}")],                     # 730 / 5 s
+                   # small: every history is exported (three connections with every mix of accepted / rejected / session-present CONNACKs under every rejoin policy)
+                   inst(Which='{"C07"}', CfgSet="Cfg_Rejoin", ConnackSet="Ck_Handshake", EarlyConnack="FALSE", MaxConns=3, MaxOps=0, Others='{}', Caps="{3}", _export_every=1)],   # 730 / 5 s
          "thorough": [inst(Which='{"C07"}', CfgSet="Cfg_RejoinBig", ConnackSet="Ck_Handshake", EarlyConnack="TRUE", MaxConns=3, MaxOps=1, Others='{"Disconnect", "Pingresp", "Reset", "Garbage", "Auth", "ServerDisconnect"}', Horizon=3, Deadline=2, AckHows='{"normal", "dup"}')]},
  "C08": {"quick": [inst(Which='{"C08"}', CfgSet="Cfg_Wake", SubmitSet="Sub_Big2", ConnackSet="Ck_Rm1Ka", Faithful="TRUE", Horizon=3, Deadline=3, Others='{"Pingresp"}', Caps="{1, 2}", MaxConns=1)],   # 111k / 24 s
          "thorough": [inst(Which='{"C08"}', CfgSet="Cfg_Wake", SubmitSet="Sub_Big", ConnackSet="Ck_Rm1Ka", Faithful="TRUE", Horizon=4, Deadline=3, Others='{"Pingresp", "Disconnect"}', Caps="{1, 2}")]},
@@ -62,6 +63,8 @@ SUBST = {"CfgSet", "SubmitSet", "ConnackSet", "InPubSet"}
 def cfg_text(d, invariants=None):
     lines = ["SPECIFICATION Spec", "CONSTANTS"]
     for k, v in d.items():
+        if k.startswith("_"):
+            continue
         lines.append("  %s %s %s" % (k, "<-" if k in SUBST else "=", v))
     lines.append("VIEW View")
     for i in (invariants or STATE_INVARIANTS):
@@ -76,4 +79,4 @@ if __name__ == "__main__":
 
 # depth from which decision histories are exported as scripts (S1): one state in EXPORT_EVERY of those deeper than this
 EXPORT_DEPTH = {pid: {"quick": 6, "thorough": 6} for pid in INSTANCES}
-EXPORT_EVERY = {"quick": 53, "thorough": 17}
+EXPORT_EVERY = {"quick": 13, "thorough": 5}
